@@ -146,7 +146,7 @@ class AoefSim:
         local = self.now + dt.timedelta(seconds=self.skew.get(node, 0))
         return {
             "locale": self.locales.get(node, "C.utf8"),
-            "tz": self.zones.get(node),
+            "tz": self.zones.get(node, "UTC"),
             "clock": local.isoformat(),
             "uuid_stream": (self.seed_tag + self.i) & 0xFFFF,
             "fault": fault,
@@ -302,6 +302,7 @@ class AoefSim:
             return self.record(op, "skipped")
         target = self.abspath(dst)
         os.makedirs(os.path.dirname(target), exist_ok=True)
+        self._move_companions(self.abspath(src), target, op["op"] == "rename")
         if op["op"] == "rename":
             os.replace(self.abspath(src), target)
             self.files[dst] = self.files.pop(src, {"status": "absent"})
@@ -313,6 +314,35 @@ class AoefSim:
         self.record(op, "ok", doc=sha(raw))
         self.trace.append((op["op"], self.files[dst].get("status")))
         self.probes.hit(f"file:{op['op']}-by-another-tool")
+
+    @staticmethod
+    def _move_companions(source, target, move):
+        """Whoever copies or moves a document takes along what the library
+        put next to it (a checksum or index file named after the document),
+        and does not leave the destination's old companions behind."""
+        sdir, sname = os.path.split(source)
+        tdir, tname = os.path.split(target)
+
+        def companions(directory, name):
+            try:
+                names = sorted(os.listdir(directory))
+            except OSError:
+                return []
+            return [
+                n for n in names
+                if n != name and (n.startswith(name) or n.startswith("." + name))
+                and os.path.isfile(os.path.join(directory, n))
+            ]
+
+        for n in companions(tdir, tname):
+            os.unlink(os.path.join(tdir, n))
+        for n in companions(sdir, sname):
+            new = n.replace(sname, tname, 1)
+            data = open(os.path.join(sdir, n), "rb").read()
+            with open(os.path.join(tdir, new), "wb") as fp:
+                fp.write(data)
+            if move:
+                os.unlink(os.path.join(sdir, n))
 
     # ------------------------------------------- in-memory documents (to_aeof)
 
@@ -359,7 +389,8 @@ class AoefSim:
         }
         self.memdocs[op["d"]] = entry
         self.probes.hit("mem:to_aeof")
-        self.check_document(None, reply["text"].encode("utf-8"), entry)
+        # (no document oracle here: the text of an in-memory document would
+        # be the harness's dump of it, not something `save` wrote)
 
     def do_mem_load(self, op):
         entry = self.memdocs.get(op["d"])
@@ -821,6 +852,16 @@ class AoefSim:
                 f"loading a document written by an acknowledged save of a "
                 f"{entry['type']} raised: {reply.get('msg')}",
             )
+            if recordings_of(entry["expect"]):
+                # "loading with an audio directory yields that directory
+                # joined with the stored path": it yielded nothing
+                self.violate(
+                    "C18",
+                    f"C18:load-raised:{reply['exc']}",
+                    f"loading a {entry['type']} saved with audio_dir="
+                    f"{entry.get('audio')!r} under audio_dir={audio!r} raised: "
+                    f"{reply.get('msg')}",
+                )
             return
         self.checked_loads += 1
         self.probes.hit(f"load:checked:{role}")
